@@ -1083,6 +1083,30 @@ func c20GenWorld(c *Ctx) *world {
 			w.convs = append(w.convs, sharedConv{in: in, out: out, conv: conv, src: src})
 		}
 	}
+	// ... and the conversions unification hands out for its inputs
+	if c.G(2) == 0 {
+		idx := []int{c.G(len(w.descs)), c.G(len(w.descs)), c.G(len(w.descs))}[:2+c.G(2)]
+		var tys []cty.Type
+		for _, i := range idx {
+			tys = append(tys, w.vals[i].Type())
+		}
+		var uty cty.Type
+		var convs []convert.Conversion
+		unsafe := c.G(2) == 0
+		if catch(func() {
+			if unsafe {
+				uty, convs = convert.UnifyUnsafe(tys)
+			} else {
+				uty, convs = convert.Unify(tys)
+			}
+		}) == nil && uty != cty.NilType {
+			for k, cv := range convs {
+				if cv != nil {
+					w.convs = append(w.convs, sharedConv{in: tys[k], out: uty, conv: cv, src: idx[k]})
+				}
+			}
+		}
+	}
 	// paths and shared path sets
 	w.paths = []cty.Path{
 		cty.GetAttrPath("a"), cty.GetAttrPath("b"), cty.IndexIntPath(0), cty.IndexIntPath(1), cty.IndexStringPath("a"),
